@@ -47,7 +47,7 @@ m = {
          "kind_free_text": "thorough tier: mutation-adequacy and false-alarm controls of the rule engine on a scratch copy of the current tree (selftest/*.json, seeded/*/patch.diff, benign/*/r*.diff)"},
     ],
     "checks": checks,
-    "notes": "Technique family: static analysis only. Every check re-extracts MIR facts from /repo's working tree when any source file changed (content hashes), fails closed (exit 2) when an anchor is missing. 48 genuine defects were found and repaired in /repo (45 `fix:` commits, listed in DESIGN.md section 8 and, with the failing input of each, under `fixed` in known_findings.json); most were reproduced first by audit sub-agents that were given only a property text (every claimed property was audited), then turned into a structural rule that reports the pre-fix tree. Seven defects are recorded as open known findings reported by a rule (C02, C04 x2, C05 x2, C14, C19 - repairs that are design decisions) and fourteen are listed as demonstrated only (C03 x2, C07 x2, C09 x3, C10, C12, C13 x2, C19 x3: no sound static necessary condition; printed as KNOWN-FINDING lines, they suppress nothing). See DESIGN.md (section 11 for seeded changes and benign controls) and RULES.md.",
+    "notes": "Technique family: static analysis only. Every check re-extracts MIR facts from /repo's working tree when any source file changed (content hashes), fails closed (exit 2) when an anchor is missing. 51 genuine defects were found and repaired in /repo (47 `fix:` commits, listed in DESIGN.md section 8 and, with the failing input of each, under `fixed` in known_findings.json); most were reproduced first by audit sub-agents that were given only a property text (every claimed property was audited), then turned into a structural rule that reports the pre-fix tree. Four defects are recorded as open known findings reported by a rule (C05 x2, C14, C19 - repairs that are design decisions) and fourteen are listed as demonstrated only (C03 x2, C07 x2, C09 x3, C10, C12, C13 x2, C19 x3: no sound static necessary condition; printed as KNOWN-FINDING lines, they suppress nothing). See DESIGN.md (section 11 for seeded changes and benign controls) and RULES.md.",
     "not_applicable": [{"property_id": k, "reason": v} for k, v in sorted(NA.items())],
 }
 json.dump(m, open(os.path.join(V, "MANIFEST.json"), "w"), indent=1)
